@@ -209,6 +209,36 @@ def like_lattice_decks(seed, n):
     return out
 
 
+def wide_range_decks(decks, seed, n):
+    """Two-dimensional lattices with index ranges 0:11 0:10 (132 elements, two-digit indices in both directions), on
+    the form FILL=n completed by --lattice; probe points in chosen far elements."""
+    rng = random.Random(seed)
+    out = []
+    for d in decks:
+        d = adeck.normalise(d)
+        lat = [c for c in d['cells'] if c['lat']]
+        if len(lat) != 1 or len(lat[0]['lranges']) != 2 or lat[0]['hasftr'] or lat[0]['hastrcl'] or lat[0].get('like'):
+            continue
+        if any(c['hasftr'] or c['hastrcl'] for c in d['cells']) or not any(c['u'] == 2 for c in d['cells']):
+            continue
+        c = lat[0]
+        c.update(latopt=True, fill=2, lranges=[[0, 11], [0, 10]], lunivs=[2] * 132)
+        for s in d['surfs']:
+            if s['n'] == 1 and s['k'] == 'so':
+                s['p'] = [90]
+        base = [P for P in adeck.grid_points(rng, 400, -4, 4)]
+        pts = []
+        for (i, j) in [(1, 10), (11, 0), (0, 0), (11, 10), (10, 1), (5, 5), (0, 10), (11, 1)]:
+            shift = [i * c['lvecs'][0][k] + j * c['lvecs'][1][k] for k in range(3)]
+            pts += [[P[k] + shift[k] for k in range(3)] for P in rng.sample(base, 14)]
+        d['pts'] = pts
+        d['pts_fixed'] = True
+        out.append(d)
+        if len(out) >= n:
+            break
+    return out
+
+
 def superfluous_lattice_option(chk, decks, thorough):
     """A --lattice option that names a lattice cell whose FILL array is on the card (ranges of the same total size,
     shifted or transposed): the deck says where the elements are, so the conversion either stays what it is or
@@ -382,6 +412,9 @@ def main(prop='C06', module='GenLat'):
                 twinned.append(t)
     chk.extra['scaled_twin_decks'] = len(twinned) - len(decks)
     decks = twinned
+    wide = wide_range_decks(decks, chk.seed + 68, 24 if thorough else 4)
+    chk.extra['wide_range_decks'] = len(wide)
+    decks = decks + wide
     if module == 'GenLat':
         decks = decks + nested_lattice_decks(chk.seed + 66, 300 if thorough else 30)
         chk.extra['nested_lattice_decks'] = 300 if thorough else 30
@@ -390,7 +423,7 @@ def main(prop='C06', module='GenLat'):
     recs, verdicts, nd, meta = common_univ.run(
         chk, decks, 'owner,compo', chk.seed,
         lambda d, r: [adeck.lattice_opts(d) + [f for f in common_univ.FLAGS if r.random() < 0.3]],
-        npts=130, decorate=lambda d, r: adeck.simple_materials(d), lo=-15, hi=15, moved_every=3)
+        npts=130, decorate=lambda d, r: adeck.simple_materials(d), lo=-15, hi=15, moved_every=3, unit_every=4)
     chk.cov['traces_validated_against_impl'] = len(verdicts)
     chk.cov['evaluations'] = len(verdicts)
     nt = 0
